@@ -158,21 +158,32 @@ K_SCALES_X = (0, 0, 0, -70, -30, -20, -8, 8, 20, 30, 70)
 
 
 def scale_k_case(rng, c):
-    """the same exact case in other units: stored entries of W / L times 2^a, degree vector times 2^b (mostly
-    b = a: a common factor on L and D leaves the generalised problem unchanged), features times 2^s.  Powers of two
-    keep the binary64 arithmetic exact; the model is exactly scale-equivariant (npe/lltsa/lpp_scale_equivariant),
-    the generalised problem scale free (generalised_problem_scale_free): nothing may depend on the magnitude."""
+    """the same exact case in other units: the implementation is given the stored entries of W / L times 2^a, the
+    degree vector times 2^b (mostly b = a: a common factor on L and D leaves the generalised problem unchanged) and
+    the features times 2^s.  Powers of two keep the binary64 arithmetic exact.  The routines are homogeneous
+    (theorems npe/lltsa/lpp_scale_equivariant: tables times 2^(2s+a) and 2^(2s+b) [2^(2s) for the right-hand sides of
+    NPE / LLTSA]) and the generalised problem is scale free (generalised_problem_scale_free): the tables the
+    implementation returns are divided by these factors (exactly, in Python) and handed to the extracted decision
+    procedure together with the case in its original units."""
     a = rng.choice(K_SCALES_W)
     b = a if rng.random() < 0.7 else rng.choice(K_SCALES_W)
     sx = rng.choice(K_SCALES_X)
-    fa, fb, fx = Fraction(2) ** a, Fraction(2) ** b, Fraction(2) ** sx
     c2 = dict(c)
     c2["gen"] = c["gen"] + "+scaled"
-    c2["scale"] = {"w": a, "dv": b if c["dv"] else None, "x": sx}
-    c2["X"] = [[fs(sf(v) * fx) for v in row] for row in c["X"]]
-    c2["W"] = [[r, cc, fs(sf(v) * fa)] for r, cc, v in c["W"]]
-    c2["dv"] = [fs(sf(v) * fb) for v in c["dv"]]
+    c2["scale"] = {"w": a, "dv": b, "x": sx}
     return c2
+
+
+def k_scale(c):
+    """(factor on the features, on W / L, on the degree vector, on the lhs table, on the rhs table)"""
+    sc = c.get("scale") or {}
+    try:
+        a, b, sx = int(sc.get("w", 0)), int(sc.get("dv", 0)), int(sc.get("x", 0))
+    except (TypeError, ValueError):
+        a = b = sx = 0
+    two = Fraction(2)
+    return (two ** sx, two ** a, two ** b, two ** (2 * sx + a),
+            two ** (2 * sx + (b if c["method"] == "lpp" else 0)))
 
 
 def gen_k_malformed(rng, method):
@@ -185,10 +196,11 @@ def gen_k_malformed(rng, method):
 
 def k_line_impl(c):
     N, D = c["N"], c["D"]
-    X = [[sf(v) for v in row] for row in c["X"]]
+    fx, fw, fd, _, _ = k_scale(c)
+    X = [[sf(v) * fx for v in row] for row in c["X"]]
     xs = " ".join(hexf(X[f][s]) for s in range(N) for f in range(D))
-    w = " ".join("%d %d %s" % (r, cc, hexf(sf(v))) for r, cc, v in c["W"])
-    dv = " ".join(hexf(sf(v)) for v in c["dv"])
+    w = " ".join("%d %d %s" % (r, cc, hexf(sf(v) * fw)) for r, cc, v in c["W"])
+    dv = " ".join(hexf(sf(v) * fd) for v in c["dv"])
     return "K %s %d %d %s %d %s %s" % (c["method"], N, D, xs, len(c["W"]), w, dv)
 
 
@@ -337,6 +349,9 @@ def eval_k(ctx, exe1, mexe, cases, stats, reads="lower"):
             ctx.violation(c, "construct_%s eigenproblem returned tables that are not finite %dx%d matrices: %s"
                           % (c["method"], D, D, line[:200]))
             continue
+        _, _, _, fl, fr = k_scale(c)
+        lhs = [x / fl for x in lhs]
+        rhs = [x / fr for x in rhs]
         parsed[i] = (lhs, rhs)
         if reads == "upper":
             tl = [lhs[j * D + k] for k in range(D) for j in range(D)]
@@ -375,7 +390,7 @@ def eval_k(ctx, exe1, mexe, cases, stats, reads="lower"):
                 elif cls == "before-F42":
                     sig = "F42-lltsa-shift-uncentred"
                     what = " (tables equal the model of the tree before fix F42: lhs built from uncentred features)"
-                fd = first_diff(impl, models["current"], D)
+                fd = first_diff(impl, models["current"], D) + scale_note(c)
                 if stats["spec_fail"] < 2 and not c["gen"].startswith("corpus"):
                     c = shrink_k(ctx, exe1, mexe, c, reads)
                     fd += " (before shrinking)"
@@ -389,7 +404,7 @@ def eval_k(ctx, exe1, mexe, cases, stats, reads="lower"):
                 # the FULL symmetric tables (DenseSymmetricMatrixPair, fix F9; theorem returned_tables_symmetric,
                 # decision procedure spec_full_b)
                 stats["other_triangle_differs"] += 1
-                fd = first_diff(impl, models["current"], D)
+                fd = first_diff(impl, models["current"], D) + scale_note(c)
                 if stats["other_triangle_differs"] <= 2 and not c["gen"].startswith("corpus"):
                     c = shrink_k(ctx, exe1, mexe, c, reads)
                     fd += " (before shrinking)"
@@ -425,6 +440,9 @@ def k_spec_fails(ctx, exe1, mexe, c, reads="lower"):
         return True
     if len(lhs) != D * D or len(rhs) != D * D:
         return True
+    _, _, _, fl, fr = k_scale(c)
+    lhs = [x / fl for x in lhs]
+    rhs = [x / fr for x in rhs]
     if reads == "upper":
         lhs = [lhs[j * D + k] for k in range(D) for j in range(D)]
         rhs = [rhs[j * D + k] for k in range(D) for j in range(D)]
@@ -461,6 +479,14 @@ def lower_only_zero(tabs, D):
     lhs, rhs = tabs
     return D >= 2 and all(lhs[i * D + j] == 0 for i in range(D) for j in range(i)) and \
         any(lhs[i * D + j] != 0 for i in range(D) for j in range(i + 1, D))
+
+
+def scale_note(c):
+    sc = c.get("scale")
+    if not sc:
+        return ""
+    return (" [the routine was given W*2^%s, degree vector*2^%s, X*2^%s; its tables are shown divided by the "
+            "corresponding powers of two]" % (sc.get("w"), sc.get("dv"), sc.get("x")))
 
 
 def first_diff(impl, model, D):
@@ -755,7 +781,7 @@ def gen_e_lattice_case(rng, tgt, em=0):
     width = scale * scale / (tgt * math.log(10.0))
     N = len(X)
     return {"kind": "E", "gen": "lattice", "method": "lpp", "N": N, "D": D, "d": rng.randint(1, D - 1),
-            "k": rng.randint(2, 2 * D), "width": hexf(width), "nshift": hexf(1e-9), "kshift": hexf(1e-3),
+            "k": rng.randint(3, 2 * D + 1), "width": hexf(width), "nshift": hexf(1e-9), "kshift": hexf(1e-3),
             "offset": offk, "scale": scale, "heat_exp10": -tgt, "em": em,
             "X": [[hexf(v) for v in row] for row in X]}
 
